@@ -53,6 +53,10 @@ pub enum Step {
 pub struct Case {
     pub tls: bool,
     pub admin_trust: bool,
+    /// the backend cannot serve the auth_query user's hash while the pool is created (it can from the first login on), so
+    /// pgcat starts without a stored hash and has to fetch it during a login
+    #[serde(default)]
+    pub late_hash: bool,
     pub steps: Vec<Step>,
 }
 
@@ -88,7 +92,7 @@ impl Part for WirePart {
         true
     }
     fn rule(&self) -> String {
-        "sessions of 1..7 login attempts against the real binary: user ∈ {two cleartext-password users, one auth_query user whose hash the mock backend serves, one trust user, an unconfigured user, the admin user} × database ∈ {pool, unconfigured, admin} × response ∈ {correct, wrong password, correct for an earlier connection's salt, correct answer truncated to 0..35 bytes, another user's password, md5+garbage, cleartext, other message type, bogus length, trailing bytes, the rotated-away password, silence}, each followed by a pipelined tagged query; the backend password of the auth_query user may rotate between attempts; plain or TLS; admin md5 or trust. Oracle: AuthenticationOk iff the pair is configured and (trust or the response is md5(md5(pw+user)+salt of this connection) for the current password); no tag of an unauthenticated attempt is ever received by a backend; authenticated attempts get their query answered. Non-trivial = a well-formed but wrong response (replay, other user, truncation, old password)".into()
+        "sessions of 1..7 login attempts against the real binary: user ∈ {two cleartext-password users, one auth_query user whose hash the mock backend serves, one trust user, an unconfigured user, the admin user} × database ∈ {pool, unconfigured, admin} × response ∈ {correct, wrong password, correct for an earlier connection's salt, correct answer truncated to 0..35 bytes, another user's password, md5+garbage, cleartext, other message type, bogus length, trailing bytes, the rotated-away password, silence}, each followed by a pipelined tagged query; the backend password of the auth_query user may rotate between attempts, and in 30% of the cases its hash cannot be fetched while the pool is created (pgcat must fetch it during the first login); plain or TLS; admin md5 or trust. Oracle: AuthenticationOk iff the pair is configured and (trust or the response is md5(md5(pw+user)+salt of this connection) for the current password); no tag of an unauthenticated attempt is ever received by a backend; authenticated attempts get their query answered. Non-trivial = a well-formed but wrong response (replay, other user, truncation, old password)".into()
     }
     fn cases(&self, tier: Tier) -> u64 {
         tier.pick(2_000, 30_000)
@@ -98,8 +102,8 @@ impl Part for WirePart {
             9 => (0u8..6, prop_oneof![6 => Just(0u8), 1 => Just(1u8), 2 => Just(2u8)], resp_strategy()).prop_map(|(user, database, resp)| Step::Login { user, database, resp }),
             1 => Just(Step::Rotate),
         ];
-        (prop::bool::weighted(0.25), prop::bool::weighted(0.2), prop::collection::vec(step, 1..8))
-            .prop_map(|(tls, admin_trust, steps)| Case { tls, admin_trust, steps })
+        (prop::bool::weighted(0.25), prop::bool::weighted(0.2), prop::bool::weighted(0.3), prop::collection::vec(step, 1..8))
+            .prop_map(|(tls, admin_trust, late_hash, steps)| Case { tls, admin_trust, late_hash, steps })
             .boxed()
     }
     fn run(&self, c: &Case, ctx: &mut WorkerCtx) -> Outcome {
@@ -258,7 +262,9 @@ async fn attempt(env: &Env, id: u32, tls: bool, user: &str, db: &str, resp: &Res
 async fn run_case(c: &Case, ctx: &mut WorkerCtx) -> Outcome {
     let mut o = Outcome::pass();
     let mut spec = BackendSpec::trust("127.0.0.1", "p0");
-    spec.auth_query.insert("carol".into(), md5_hash_for("carol", "carol_pw"));
+    if !c.late_hash {
+        spec.auth_query.insert("carol".into(), md5_hash_for("carol", "carol_pw"));
+    }
     let env = match Env::start(ctx, &[spec], |m| config(m, c)).await {
         Ok(e) => e,
         Err(e) => {
@@ -266,6 +272,10 @@ async fn run_case(c: &Case, ctx: &mut WorkerCtx) -> Outcome {
             return o;
         }
     };
+    if c.late_hash {
+        env.mocks[0].set_auth_hash("carol", &md5_hash_for("carol", "carol_pw"));
+        o.label("hash_unavailable_at_pool_creation");
+    }
     let mut passwords: HashMap<String, String> = USERS.iter().map(|(u, p, _)| (u.to_string(), p.to_string())).collect();
     passwords.insert(pgc::ADMIN_USER.into(), pgc::ADMIN_PASS.into());
     let mut old_pw = String::from("never-valid");
